@@ -198,6 +198,12 @@ def check(spec, ctx):
         results.append(res)
     ctx.case(spec, nontrivial=nontrivial, labels=labels, out={"type": results[0].type})
 
+    # buffers passed positionally (documented order: geometry, time_buffer, freq_buffer)
+    try:
+        if geometry.buffer_geometry(g, tb, fb) != results[0]:
+            ctx.fail("buffer_geometry(geometry, tb, fb) with positional buffers differs from the keyword call", spec, None, None, kind="positional")
+    except Exception as e:
+        ctx.fail(f"buffer_geometry(geometry, {tb}, {fb}) with positional buffers raised {type(e).__name__} although the keyword call returned", spec, repr(e)[:200], None, kind="positional")
     # omitted buffers mean 0
     if scale_ratio(spec) < 1e6 or kind in ("TimeStamp", "TimeInterval", "BoundingBox"):
         try:
@@ -266,6 +272,88 @@ def check(spec, ctx):
         if not (bb[0] <= ba[0] and bb[1] <= ba[1] and bb[2] >= ba[2] and bb[3] >= ba[3]):
             ctx.fail("larger buffers do not give a superset (exact types)", spec, bb, ba, kind="monotone")
 
+    # a copy derived from the geometry that was just buffered, and that geometry after its coordinates were re-assigned, are
+    # buffered like a freshly built geometry with those coordinates (pydantic models are mutable; nothing may be remembered)
+    from vf.oracles.shp import shift_spec_time
+
+    b_t, b_f = spec["b1"]
+    try:
+        fresh_g = data.geometry_validate({"type": kind, "coordinates": shift_spec_time(kind, coords, 1.0)}, mode="dict")
+        fresh = geometry.buffer_geometry(fresh_g, time_buffer=b_t, freq_buffer=b_f)
+    except Exception:
+        return  # the moved geometry does not exist / runs into a finding of its own
+    for what, obj in (("model_copy(update=coordinates) of a buffered geometry", g.model_copy(update={"coordinates": fresh_g.coordinates})), ("deep copy with new coordinates", g.model_copy(update={"coordinates": fresh_g.coordinates}, deep=True))):
+        got = ctx.call(spec, f"buffer_geometry({what})", geometry.buffer_geometry, obj, time_buffer=b_t, freq_buffer=b_f)
+        if got != fresh:
+            ctx.fail(f"{what}: buffered result differs from the one of a freshly built {kind} with the same coordinates", spec, got.model_dump()["coordinates"], fresh.model_dump()["coordinates"], kind="stale_derived")
+    g.coordinates = fresh_g.coordinates
+    got = ctx.call(spec, "buffer_geometry(after coordinates were re-assigned)", geometry.buffer_geometry, g, time_buffer=b_t, freq_buffer=b_f)
+    if got != fresh:
+        ctx.fail(f"{kind} whose coordinates were re-assigned after a first call: buffered result differs from the one of a freshly built geometry", spec, got.model_dump()["coordinates"], fresh.model_dump()["coordinates"], kind="stale_after_assignment")
+
+
+@st.composite
+def overlap_case(draw):
+    """MultiPolygons whose members overlap or nest (two annotators' outlines merged into one geometry): accepted by the data model,
+    not 'valid' for shapely - buffering must still return something that contains every member."""
+    ts = draw(st.sampled_from([2.0**-3, 1.0, 8.0]))
+    fs = draw(st.sampled_from([128.0, 8192.0]))
+    t0, f0 = ts * draw(st.integers(0, 16)), fs * draw(st.integers(0, 8))
+
+    def rect(a, b, c, d):
+        return [[[t0 + ts * a, f0 + fs * c], [t0 + ts * b, f0 + fs * c], [t0 + ts * b, f0 + fs * d], [t0 + ts * a, f0 + fs * d]]]
+
+    a, c = draw(st.integers(0, 8)), draw(st.integers(0, 8))
+    w, h = draw(st.integers(4, 12)), draw(st.integers(4, 12))
+    members = [rect(a, a + w, c, c + h)]
+    for _ in range(draw(st.integers(1, 2))):
+        mode = draw(st.sampled_from(["partial", "nested", "cross"]))
+        if mode == "partial":
+            dx, dy = draw(st.integers(1, w - 1)), draw(st.integers(1, h - 1))
+            members.append(rect(a + dx, a + dx + w, c + dy, c + dy + h))
+        elif mode == "nested":
+            members.append(rect(a + 1, a + w - 1, c + 1, c + h - 1))
+        else:
+            members.append(rect(a - 2 if a >= 2 else a, a + w + 2, c + h // 2 - 1, c + h // 2 + 1))
+    if draw(st.booleans()):
+        members = members[::-1]
+    bt = ts * draw(st.sampled_from([0.0, 2.0**-4, 0.25, 1.0, 4.0]))
+    bf = fs * draw(st.sampled_from([0.0, 2.0**-4, 0.25, 1.0, 4.0]))
+    return {"members": members, "b": [bt, bf]}
+
+
+def check_overlap(spec, ctx):
+    from soundevent import data, geometry
+
+    members, (bt, bf) = spec["members"], spec["b"]
+    if len(members) < 2 or bt < 0 or bf < 0:
+        raise ValueError("malformed spec")
+    g = data.MultiPolygon(coordinates=members)
+    shapes = [to_shp("Polygon", m) for m in members]
+    if not all(s_.is_valid and s_.area > 0 for s_ in shapes) or not any(shapes[i].intersects(shapes[j]) and shapes[i].intersection(shapes[j]).area > 0 for i in range(len(shapes)) for j in range(i)):
+        raise ValueError("malformed spec: members must be valid polygons and at least two must overlap")
+    ob = ref_bounds("MultiPolygon", members)
+    if max(ob[2] / bt if bt else ob[2] * 1e9, ob[3] / bf if bf else ob[3] * 1e9) >= 1e6:
+        ctx.case(spec, nontrivial=False, labels=["f16_region_skipped"])  # zero buffers / huge scaled coordinates: finding F16's subject
+        return
+    ctx.case(spec, nontrivial=True, labels=[f"members={len(members)}", "tb0" if bt == 0 else "tb+", "fb0" if bf == 0 else "fb+"])
+    res = ctx.call(spec, f"buffer_geometry(MultiPolygon with overlapping members, {bt}, {bf})", geometry.buffer_geometry, g, time_buffer=bt, freq_buffer=bf)
+    if res.type not in ("Polygon", "MultiPolygon"):
+        ctx.fail(f"buffered MultiPolygon has unexpected type {res.type}", spec, res.type, "Polygon|MultiPolygon", kind="result_type")
+    rb = ref_bounds(res.type, res.coordinates)
+    if rb[0] < 0 or rb[1] < 0 or rb[3] > MAXF:
+        ctx.fail(f"buffer_geometry result leaves the domain: bounds {rb}", spec, rb, None, kind="domain")
+    shp_r = to_shp(res.type, res.coordinates)
+    sx, sy = max(rb[2] - rb[0], 1e-300), max(rb[3] - rb[1], 1e-300)
+    nr = scaled(shp_r, sx, sy, rb[0], rb[1])
+    for i, s_ in enumerate(shapes):
+        if not nr.buffer(1e-7).covers(scaled(s_, sx, sy, rb[0], rb[1])):
+            ctx.fail(f"buffer_geometry(MultiPolygon, {bt}, {bf}) does not contain member {i} of the original (members overlap)", spec, res.model_dump()["coordinates"], members[i], kind="containment")
+    et, ef = 1e-6 * (bt + ob[2] - ob[0]), 1e-6 * (bf + ob[3] - ob[1])
+    want = [max(0.0, ob[0] - bt), max(0.0, ob[1] - bf), ob[2] + bt, min(float(MAXF), ob[3] + bf)]
+    if rb[0] > want[0] + et or rb[2] < want[2] - et or rb[1] > want[1] + ef or rb[3] < want[3] - ef:
+        ctx.fail(f"bounds {rb} of the buffered MultiPolygon do not extend the original's {ob} by the buffers ({bt}, {bf})", spec, rb, want, kind="bounds_growth")
+
 
 @st.composite
 def neg_case(draw):
@@ -284,17 +372,28 @@ def check_negative(spec, ctx):
     g = data.geometry_validate(geom_dict(spec["g"]), mode="dict")
     tb, fb = spec["b1"]
     ctx.case(spec, nontrivial=True, labels=[g.type])
-    try:
-        res = geometry.buffer_geometry(g, time_buffer=tb, freq_buffer=fb)
-    except ValueError:
-        return
-    except Exception as e:
-        ctx.fail(f"negative buffer raised {type(e).__name__}, not ValueError", spec, repr(e), "ValueError", kind="wrong_exception")
-        return
-    ctx.fail(f"buffer_geometry({g.type}) accepted a negative buffer ({tb}, {fb})", spec, res.model_dump(), "ValueError", kind="false_accept")
+    calls = {
+        "keywords": lambda: geometry.buffer_geometry(g, time_buffer=tb, freq_buffer=fb),
+        "positional": lambda: geometry.buffer_geometry(g, tb, fb),
+        "time positional, freq keyword": lambda: geometry.buffer_geometry(g, tb, freq_buffer=fb),
+    }
+    if fb == 0:
+        calls["freq omitted"] = lambda: geometry.buffer_geometry(g, tb)
+    if tb == 0:
+        calls["time omitted"] = lambda: geometry.buffer_geometry(g, freq_buffer=fb)
+    for how, call in calls.items():
+        try:
+            res = call()
+        except ValueError:
+            continue
+        except Exception as e:
+            ctx.fail(f"negative buffer ({how}) raised {type(e).__name__}, not ValueError", spec, repr(e), "ValueError", kind="wrong_exception")
+            continue
+        ctx.fail(f"buffer_geometry({g.type}) accepted a negative buffer ({tb}, {fb}) passed as {how}", spec, res.model_dump(), "ValueError", kind="false_accept")
 
 
 SUBS = [
     Sub("grow_and_stay_valid", check, strategy=case, quick=14000, thorough=350000, min_nontrivial=0.2),
     Sub("negative_rejected", check_negative, strategy=neg_case, quick=1500, thorough=20000),
+    Sub("overlapping_members", check_overlap, strategy=overlap_case, quick=1500, thorough=30000, min_nontrivial=0.3),
 ]
